@@ -37,7 +37,7 @@ MODEL_VOCAB_WIDE = True       # the merged model has the list/vector/predicate b
 MANIFEST = dict(
     text='Coq theorems (coq/Props/C05.v) about the VM model for ANY builtin table: call/cc captures slots 0..=sp, sp/ep/bp and the address after the call, then re-dispatches as an ordinary application; invoking a continuation from any state restores exactly the saved slots and registers, delivers the value in %acc and leaves heap, Rc payloads, globals and output untouched; it does not modify the continuation object (reusable); zero arguments is an error. Tie: generated call/cc sessions (operand/tail/nested positions, stored and re-entered continuations, later top-level forms), three-way differential + independent CPS reference interpreter as oracle.',
     design="DESIGN.md section 5 C05",
-    note="The theorems are in coq/Props/C05.v (integrator); until they land that file holds a placeholder statement. "
+    note="The theorems are in coq/Props/C05.v. "
          "The reference interpreter is an ORACLE for classifying the implementation's output, not a proof. "
          "Correspondence is sampling. Vector-stored continuations use builtins outside the temporary model vocabulary "
          "and are compared implementation-vs-oracle only.",
